@@ -1,0 +1,16 @@
+//go:build verif
+
+package fusemanager
+
+import "github.com/containerd/stargz-snapshotter/snapshot"
+
+// VerifWrapFileSystem, when set, replaces the filesystem (or construction error) Init is about
+// to install. Used by the verification harness to inject recording filesystems and failures.
+var VerifWrapFileSystem func(fs snapshot.FileSystem, err error) (snapshot.FileSystem, error)
+
+func verifWrapFileSystem(fs snapshot.FileSystem, err error) (snapshot.FileSystem, error) {
+	if VerifWrapFileSystem != nil {
+		return VerifWrapFileSystem(fs, err)
+	}
+	return fs, err
+}
